@@ -92,6 +92,7 @@ void pmc_run(const char* config) {
     mv_init(); mvp::use_fast_stacks(true);
     mv_on_deadlock = on_deadlock;
     mv_time_deviations(strstr(extra, "tdev") != nullptr);
+    mv_tso(strstr(extra, "tso") != nullptr); mv_switch_points(0);     // built with -DPHOTON_VERIF for the TSC hook only
     st.prog.run(body);
     if (st.acquired != st.released) pmc_violation("acquire-release-mismatch", "%d/%d", st.acquired, st.released);
     // the lock must be exactly "unlocked" now: a fresh exclusive lock with timeout 0 succeeds. (needs a vCPU)
@@ -114,6 +115,10 @@ static const PmcConfig CFG[] = {
     {"q:R,R|W",        3, {1,2}, {0,0}, {0,0}, {0,0}, ""},
     {"r:W,R|R",        3, {1,2}, {0,0}, {0,0}, {0,0}, ""},
     {"q:W|R|R",        3, {1,2}, {0,0}, {0,0}, {0,0}, "writer unlock must wake all waiting readers"},
+    {"q:W|R:tso",      3, {1,2}, {0,0}, {1,1}, {2,3}, "x86-TSO store buffers (qrwlock is built on atomics only)"},
+    {"q:W|W:tso",      3, {1,2}, {0,0}, {1,1}, {2,3}, ""},
+    {"q:R,R|W:tso",    2, {1,1}, {0,0}, {1,1}, {2,2}, ""},
+    {"r:W|R:tso",      3, {1,1}, {0,0}, {1,1}, {2,2}, ""},
     {"r:W|w:tdev",     3, {1,2}, {1,1}, {0,0}, {2,3}, "a waiter gives up exactly when it is being admitted"},
     {"q:W|w:tdev",     3, {1,2}, {1,1}, {0,0}, {2,3}, ""},
     {"q:W|r:tdev",     3, {1,2}, {1,1}, {0,0}, {2,2}, ""},
